@@ -269,6 +269,7 @@ def visit(
                             break  # the root node was skipped
                         path_pop()
                         continue
+                    result = None  # on leaving, SKIP means no action
 
                 elif result is not None:
                     edits.append((key, result))
